@@ -61,6 +61,7 @@ fn scen(_spec: RunSpec) -> ScenFut {
             ..Default::default()
         };
         let crash_run = sim::w_bool(40);
+        let slow_queries = sim::w_bool(50);
         let jump = sim::w_bool(25);
         let post = sim::w_bool(30);
         sim::set_cfg(|c| {
@@ -73,6 +74,14 @@ fn scen(_spec: RunSpec) -> ScenFut {
                 c.crash_pm = 3;
                 c.crash_budget = 1;
                 c.crashable = vec![0];
+            }
+            if slow_queries {
+                // the query node is denied grants for a while: queries stay in flight (holding their pins)
+                // across whole compaction cycles and GC passes
+                c.stall_pm = 25;
+                c.stall_budget = 3;
+                c.stall_nodes = vec![1];
+                c.stall_ms = vec![30_000, 70_000, 130_000, 400_000];
             }
         });
         let now = sim::EPOCH_NS as i64;
@@ -110,7 +119,7 @@ fn scen(_spec: RunSpec) -> ScenFut {
         }
         sim::set_cfg(|c| c.enabled = true);
         let versions_before = store::versions("catalog.json").len();
-        sim::log(format!("CONFIG grace={grace_s}s retention={retention_days}d crash_run={crash_run} clock_jump={jump} recent={n_recent} post_gates={post}"));
+        sim::log(format!("CONFIG grace={grace_s}s retention={retention_days}d crash_run={crash_run} slow_queries={slow_queries} clock_jump={jump} recent={n_recent} post_gates={post}"));
         // monitor: every DELETE at its effect instant
         let pins = ChunkPinRegistry::new();
         let dels: Arc<Mutex<Vec<Del>>> = Arc::new(Mutex::new(Vec::new()));
@@ -263,7 +272,12 @@ fn scen(_spec: RunSpec) -> ScenFut {
         let grace_ns = grace_s * 1_000_000_000;
         for d in dels.iter() {
             if d.pinned {
-                sim::violation("C09/deleted-while-pinned", format!("{} was physically deleted at t=+{}s while a running query held it pinned (grace {grace_s}s)", short(&d.path), d.t_ns / 1_000_000_000));
+                // cause class from the configuration: with a grace period below the query node's 60 s catalog-cache
+                // TTL a query can still *select* (from its stale catalog view) and pin a chunk that is already
+                // scheduled for deletion, after the GC pass evaluated the pins; with grace >= 60 s a pinned chunk
+                // can only be one that was pinned before the pass looked
+                let class = if grace_s < 60 { "grace-below-catalog-cache-ttl" } else { "grace-at-least-catalog-cache-ttl" };
+                sim::violation(format!("C09/deleted-while-pinned/{class}"), format!("{} was physically deleted at t=+{}s while a running query held it pinned (grace {grace_s}s)", short(&d.path), d.t_ns / 1_000_000_000));
             }
             if !ever_listed.contains(&d.path) {
                 // an orphan that was never referenced (e.g. a merged file whose publication failed) is not "something else": skip unless it is a seed
